@@ -114,6 +114,7 @@ H_LETTERS = collections.OrderedDict([
     ('garbage', None),           # garbage * (R+1)
     ('rejected', ['exc2']),
     ('errno', None),             # transport specific
+    ('connect-error', None),     # the socket cannot be connected at all (UDP: ENETUNREACH at connect, TCP: refused)
     ('success-after-retry', ['drop', 'valid']),
 ])
 
@@ -136,7 +137,15 @@ def run_b(cfg, hist):
     vio = []
     for name in hist:
         s.peer.forced = h_script(cfg, name)
+        if name == 'connect-error':
+            s.peer.forced = []
+            if cfg['transport'] == 'udp':
+                s.peer.forced_udp_conn = ['netunreach'] * (cfg['R'] + 1)
+            else:
+                s.peer.forced_conn = ['refused'] * (cfg['R'] + 1)
         obs = s.call(op_call(s.inv, 'read_sensor'))
+        s.peer.forced_udp_conn = []
+        s.peer.forced_conn = []
         s.peer.forced = []
         s.drain()
         r = obs.result
